@@ -143,6 +143,26 @@ func c04HistScenarios(tier string) []*h.Scenario {
 		}
 		out = append(out, s)
 	}
+	// a clamped fleet scale-up of more than one attach batch, with every attach call failing
+	{
+		g := StdGroup("g1")
+		g.Opts.MaxNodes = 40
+		g.ASG.Max = 100
+		g.Opts.AWS.LaunchTemplateID, g.Opts.AWS.LaunchTemplateVersion = "lt-1", "1"
+		s := &h.Scenario{Name: "c04.hist.bigfleet", Groups: []h.GroupSpec{g}, Slots: 3, Quantum: Q, MaxEventsPerSlot: 1,
+			FaultOps: map[string]bool{sim.OpAttach: true, sim.OpCreateFleet: true},
+			Init: func(hh *h.Hist) {
+				a := InitASGs(hh)[0]
+				for i := 0; i < 5; i++ {
+					n := hh.W.AddNode(a, sim.NodeOpt{Age: time.Duration(10+i) * Q})
+					hh.W.AddPod(podOn(g, n.Name, 1000))
+				}
+				hh.W.AddPod(podOn(g, "", 60000))
+			},
+			Events: func(hh *h.Hist, slot int) []h.Event { return []h.Event{evRestart(), evSkipSettle()} },
+		}
+		out = append(out, s)
+	}
 	return out
 }
 
